@@ -17,6 +17,10 @@ when it happened once unless a callback of that walk removed it first, duplicate
 time is called exactly at change+ms iff it was registered before that instant (strictly), not removed before it and the
 switch did not change before it; monitors hear of every real change once; a wait future resolves at the first call of its
 handler, never without a change, and leaves no handler behind once it is done or cancelled.
+A third kind of case ("net", section "re-entrant dispatch") drives 2-3 switches with handlers and monitors that re-enter the
+controller: they report changes (of their own switch or another one; from an untimed walk, from inside a deadline bucket, from
+a monitor), and register / remove handlers on any switch; model: MpfVerif.Model.SwitchNet (lines starting with `n`), oracle:
+net_oracle.
 A second stream (oracle + model) checks the Switch device's events: <name>_active/_inactive, tag events,
 events_when_activated with |ms and the ignore window (on an NC switch).
 """
@@ -32,8 +36,8 @@ LEAN_MODULES = ["MpfVerif.Props.C03"]
 PROPS_FILE = "MpfVerif/Props/C03.lean"
 GEN = []
 MANIFEST = {
-  "text": "Proof on a Lean model of the switch controller's per-switch state (logical/raw state, last change, registered handlers per state, the insertion-ordered dict of pending hold-time deadlines, the single scheduled wake-up, the mute set, the monitor flag), for every assignment of behaviours to callbacks - a callback may register and remove handlers of its own switch (itself, a peer, one later in the same walk or deadline bucket, either state, timed or untimed) while a change or an expired bucket is being dispatched, modelled as the code does it: the walk over a copy with the cancelled flag, the re-check against the live bucket, the bucket deleted after its callbacks, one wake-up re-armed at the end - and for every sequence of raw/logical reports, resyncs, registrations and removals, mutes, time steps and wake-ups: the logical state is the last reported one (NC inverted for raw values) and the raw state its inverse image (after a resync: the hardware); a duplicate changes nothing and calls nothing; a change of an unmuted switch calls a sub-sequence of the untimed handlers registered for the new state when it happened, each at most once, in order - exactly all of them unless a callback of the walk removes one - and nothing that a callback registers during the walk; a muted change calls nothing; a monitor hears of every real change exactly once; the wake-up is always scheduled at the minimum pending deadline and never overdue, so every call made by a wake-up (also of handlers that callbacks of that wake-up left or put in place) is for the current state at exactly change+ms; a removed handler is neither registered nor pending and is never called until somebody registers it again - also when the removal happens inside a callback: not later in the same walk, not later in the same bucket, not in a later bucket. A poll that agrees with the hardware is a no-op; a poll that disagrees overwrites the state silently (witness theorem: a stale hold-time handler then still fires) and is excluded from the timing theorems. A second model covers the Switch device's own events (events_once without an ignore window, recycle_window with one). Both models are tied to switch_controller.py and devices/switch.py by correspondence runs on real machines (NO and NC switches, callbacks that mutate, mutes, monitors, resync/poll, wait futures, tags, timed events, ignore window) on every check.",
-  "note": "Trusted: Lean kernel + {propext, Quot.sound, Classical.choice}; hand-written Model/Switch.lean validated by differential runs; asyncio timer heap / TimeTravelLoop (time cannot pass a scheduled wake-up: built into the model's `to` step); 1/8 s time grid (floats exact). Not modelled: callbacks that report a switch change themselves (re-entrant process_switch) or act on another switch, monitors that mutate, process_switch_by_num for unknown numbers, mutes in the device-event stream; wait_for_switch futures are covered by the oracle and by the correspondence of their handlers' registration/removal, not by a theorem of their own.",
+  "text": "Proof on a Lean model of the switch controller's per-switch state (logical/raw state, last change, registered handlers per state, the insertion-ordered dict of pending hold-time deadlines, the single scheduled wake-up, the mute set, the monitor flag), for every assignment of behaviours to callbacks - a callback may register and remove handlers of its own switch (itself, a peer, one later in the same walk or deadline bucket, either state, timed or untimed) while a change or an expired bucket is being dispatched, modelled as the code does it: the walk over a copy with the cancelled flag, the re-check against the live bucket, the bucket deleted after its callbacks, one wake-up re-armed at the end - and for every sequence of raw/logical reports, resyncs, registrations and removals, mutes, time steps and wake-ups: the logical state is the last reported one (NC inverted for raw values) and the raw state its inverse image (after a resync: the hardware); a duplicate changes nothing and calls nothing; a change of an unmuted switch calls a sub-sequence of the untimed handlers registered for the new state when it happened, each at most once, in order - exactly all of them unless a callback of the walk removes one - and nothing that a callback registers during the walk; a muted change calls nothing; a monitor hears of every real change exactly once; the wake-up is always scheduled at the minimum pending deadline and never overdue, so every call made by a wake-up (also of handlers that callbacks of that wake-up left or put in place) is for the current state at exactly change+ms; a removed handler is neither registered nor pending and is never called until somebody registers it again - also when the removal happens inside a callback: not later in the same walk, not later in the same bucket, not in a later bucket. A poll that agrees with the hardware is a no-op; a poll that disagrees overwrites the state silently (witness theorem: a stale hold-time handler then still fires) and is excluded from the timing theorems. A second model covers the Switch device's own events (events_once without an ignore window, recycle_window with one). A third model (Model/SwitchNet.lean) is the whole family of switches with re-entrant dispatch: handlers and monitors that call process_switch themselves (same switch or another one, from an untimed walk, from inside a deadline bucket, from a monitor, nested) and register/remove handlers on any switch; proved for every amount of recursion fuel and all behaviours: every switch's state is the last process_switch call for it in the trace, nested ones included (reentrant_state_is_last_report); a duplicate, nested or not, changes and invokes nothing; once a callback of a wake-up has changed the switch itself the wake-up calls nothing more (changed_switch_abandons_its_wakeup, the repaired KeyError); a walk whose change is no longer the switch's latest arms no hold time (stale_walk_arms_nothing, the repaired double arming); a wait_for_switch future is resolved exactly once, by the first call of one of its handlers (wait_future_resolves_once_at_first_matching_change). All models are tied to switch_controller.py and devices/switch.py by correspondence runs on real machines (NO and NC switches, callbacks that mutate, re-entrant reports, handlers and monitors acting on other switches, mutes, resync/poll, wait futures, tags, timed events, ignore window) on every check.",
+  "note": "Trusted: Lean kernel + {propext, Quot.sound, Classical.choice}; hand-written Model/Switch.lean validated by differential runs; asyncio timer heap / TimeTravelLoop (time cannot pass a scheduled wake-up: built into the model's `to` step); 1/8 s time grid (floats exact). Not modelled: monitors that add/remove monitors, process_switch_by_num for unknown numbers, mutes in the device-event stream and in the re-entrant model; in the re-entrant model only state-is-last-report, duplicates, the two abandon rules and the future are theorems - its hold-time timing (fires at change+ms iff held) is covered by oracle and correspondence only; no translator tie (the models are hand-written, pinned to the source by harness/pins/C03.json).",
   "technique": "Lean 4 invariants and loop invariants over all op sequences and all callback behaviours (induction over the op list, over the walked copy and over the deadline keys) on two hand models (controller per switch, Switch device events) + differential correspondence with the real SwitchController/Switch + timeline oracles",
   "translated": False,
 }
@@ -45,7 +49,10 @@ RULE = ("cases: 8-45 ops on 1-3 switches (NO/NC): raw/logical reports incl. dupl
         "pending deadline; in half of the cases monitors on/off, FAST resyncs with random raw snapshots, wait_for_any_switch futures "
         "(1-3 switches, state 0/1/2, only_on_change, hold 0-2 ticks) and cancellations; in a quarter mute/unmute and verify_switches "
         "polls (in sync or with a missed change); second stream: switches with tags, events_when_(de)activated incl. |ms and "
-        "ignore_window_ms under report/advance sequences. non-trivial = at least one timed handler pending across an op and at "
+        "ignore_window_ms under report/advance sequences; third stream (net): 8-30 ops on 2-3 switches where 1-3 of 4 callback ids and "
+        "0-2 monitors carry programs of 1-3 actions on ANY switch: report l|r 0|1 (re-entrant process_switch, nesting cut at depth 2; "
+        "15% leave-and-come-back pairs on the own switch), add/remove from a pool with shared deadline buckets; non-trivial there = a "
+        "nested report and a handler call. non-trivial = at least one timed handler pending across an op and at "
         "least one callback; distinct = canonical JSON")
 TRUSTED = [
     "modelled, not verified: asyncio timer heap / TimeTravelLoop (the scheduled wake-up runs before time passes it; order of "
@@ -54,12 +61,15 @@ TRUSTED = [
     "Model/Switch.lean is hand-written; tied to mpf/core/switch_controller.py by correspondence on every run (callback programs, "
     "mute, monitor, resync = FastNetNeuronCommunicator.update_switches_from_hw_data run against the virtual machine with a stub "
     "communicator, poll = verify_switches with the platform's get_hw_switch_states replaced)",
+    "Model/SwitchNet.lean is hand-written; tied to the same file by correspondence on the net cases (trace of calls, monitor calls "
+    "and nested reports per operation, pending deadlines / wake-up / registrations at the end)",
     "the Dev model in Model/Switch.lean is hand-written; tied to mpf/devices/switch.py (_post_events, _post_events_with_recycle, "
     "_recycle_passed) by correspondence on every run, plus an independent timeline oracle for the posted events",
 ]
 ASSUMPTIONS = ["hold times and report instants are multiples of 125 ms",
-               "switch callbacks register/remove handlers of their own switch only; they do not report switch changes themselves "
-               "(re-entrant process_switch during a walk is outside the model) and monitors do not touch handlers",
+               "re-entrant cases: a handler/monitor body stops reporting beyond nesting depth 2 (real runs stay finite; the model has the "
+               "same rule, the theorems hold for every depth and fuel); cases whose programs multiply beyond 1500 handler calls are "
+               "counted and dropped; monitors do not add or remove monitors",
                "not judged by the oracle because the statement does not say (compared with the model only, counted in the "
                "evidence): what a muted switch calls, whether a handler added during a walk is called in that walk, the order of "
                "calls, everything between a silent overwrite of the state by a poll and the next real change",
@@ -1227,6 +1237,494 @@ def check_event_case(ctx, case, shrink=True, model=None):
     return bad
 
 
+# ---------------------------------------------------------------------------------------------------- re-entrant dispatch
+
+MAXD = 2          # a handler / monitor body reports switch changes only while nested at most this deep (keeps runs finite)
+MON_CB = 700      # callback ids of monitors with a program: MON_CB + m
+
+
+def gen_net_case(r):
+    """2-3 switches; callback programs act on ANY switch: add / remove a handler, or report a change (re-entrant
+    process_switch: from an untimed handler during the walk of a change - of the same switch or of another one -, from a
+    hold-time handler while its deadline bucket is being processed, from a monitor)."""
+    nsw = r.choice([2, 2, 3])
+    sws = [{"nc": r.random() < 0.4} for _ in range(nsw)]
+    pool = []
+    for _ in range(r.randint(3, 5)):
+        pool.append((r.randrange(nsw), r.choice([1, 1, 0]), r.choice([0, 0, 0, 1, 2, 2, 3]), r.choice([0, 1, 2, 3])))
+    if r.random() < 0.5:      # two specs in the same deadline bucket
+        i, st, ms, cb = pool[0]
+        pool.append((i, st, ms or 2, (cb + 1) % 4))
+        pool.append((i, st, ms or 2, cb))
+
+    def spec():
+        if r.random() < 0.8:
+            return r.choice(pool)
+        return (r.randrange(nsw), r.choice([1, 1, 0]), r.choice([0, 0, 1, 2, 3]), r.choice([0, 1, 2, 3]))
+
+    def body(own_sw, monitor=False):
+        acts = []
+        if own_sw is not None and r.random() < 0.15:
+            # leaves the state and comes back within the same instant (the outer walk is still running)
+            v = r.choice([0, 1])
+            return [["p", own_sw, "l", v], ["p", own_sw, "l", 1 - v]]
+        reports = 0
+        for _ in range(r.choice([1, 1, 2, 3])):
+            x = r.random()
+            if x < 0.5 and reports < (1 if monitor else 2):
+                j = own_sw if (own_sw is not None and r.random() < 0.45) else r.randrange(nsw)
+                acts.append(["p", j, r.choice(["l", "r"]), r.choice([0, 1])])
+                reports += 1
+            else:
+                i, st, ms, cb = spec()
+                kind = r.choice(["a", "r", "r"])
+                if monitor and kind == "a" and ms == 0:
+                    kind = "r"      # (a monitor that registers an untimed handler at every change makes walks grow without bound)
+                acts.append([kind, i, st, ms, cb])
+        return acts
+    progs = []
+    for cb in r.sample([0, 1, 2, 3], r.choice([1, 2, 2, 3])):
+        own = [p[0] for p in pool if p[3] == cb]
+        progs.append([cb, body(r.choice(own) if own else None)])
+    mons = []
+    if r.random() < 0.4:
+        for m in range(r.choice([1, 1, 2])):
+            mons.append(m)
+            progs.append([MON_CB + m, body(None, True) if r.random() < 0.7 else []])
+    ops = []
+    for m in mons:
+        ops.append(["mon", m, 1])
+    for _ in range(r.randint(8, 30)):
+        k = r.random()
+        i, st, ms, cb = spec()
+        if k < 0.25:
+            ops.append(["adv", r.choice([0, 1, 1, 1, 2, 2, 3, 4])])
+        elif k < 0.55:
+            ops.append(["report", r.randrange(nsw), r.choice(["l", "r"]), r.choice([0, 1])])
+        elif k < 0.85:
+            ops.append(["add", i, st, ms, cb])
+        elif k < 0.93:
+            ops.append(["rm", i, st, ms, cb])
+        elif mons:
+            ops.append(["mon", r.choice(mons), r.choice([0, 1])])
+    ops.append(["adv", r.choice([3, 9])])
+    return {"kind": "net", "sws": sws, "progs": progs, "ops": ops}
+
+
+class NetRun:
+    """The real SwitchController with handlers and monitors that re-enter it (see gen_net_case)."""
+
+    def __init__(self, case):
+        self.case = case
+        self.progs = {cb: acts for cb, acts in case.get("progs", [])}
+        self.groups = []
+        self.log = []
+        self.funcs = {}
+        self.monfuncs = {}
+        self.vm = None
+        self.finished = False
+        self.crash = None
+        self.wakes = 0
+        self.calls = 0
+        self.depth = 0
+        self.max_depth_seen = 0
+
+    def tick(self):
+        x = (self.vm.now() - self.t0) / TICK
+        return int(x) if x == int(x) else round(x, 6)
+
+    def group(self, head):
+        self.cur = {"head": head, "t": self.tick(), "obs": []}
+        self.groups.append(self.cur)
+
+    def body(self, cb, t):
+        """the actions of callback / monitor `cb`, performed from inside the controller's dispatch"""
+        sc = self.vm.machine.switch_controller
+        self.depth += 1
+        self.max_depth_seen = max(self.max_depth_seen, self.depth)
+        try:
+            for act in self.progs.get(cb, ()):
+                if act[0] == "p":
+                    _, j, kind, v = act
+                    if self.depth > MAXD or j >= len(self.switches):
+                        continue
+                    self.do_report(j, kind, v, nested=True)
+                else:
+                    kind, j, st2, ms2, cb2 = act
+                    if j >= len(self.switches):
+                        continue
+                    self.log.append(("add" if kind == "a" else "rm", j, st2, ms2, cb2, t, "nested"))
+                    if kind == "a":
+                        sc.add_switch_handler_obj(self.switches[j], self.func(j, cb2, st2, ms2), st2, ms2 * 125)
+                    else:
+                        sc.remove_switch_handler_obj(self.switches[j], self.func(j, cb2, st2, ms2), st2, ms2 * 125)
+        finally:
+            self.depth -= 1
+
+    def do_report(self, j, kind, v, nested):
+        sw = self.switches[j]
+        logical = v if kind == "l" else v ^ (1 if sw.invert else 0)
+        t = self.tick()
+        self.log.append(("report", j, kind, v, t, self.depth))
+        self.cur["obs"].append("r %d %d" % (j, logical))
+        try:
+            self.vm.machine.switch_controller.process_switch(sw.name, v, logical=(kind == "l"))
+        finally:
+            self.log.append(("ret", j, sw.state, sw.hw_state, t, self.depth))
+
+    def called(self):
+        self.calls += 1
+        if self.calls > 1500:
+            self.finished = True
+            self.too_big = True
+            raise RuntimeError("runaway: more than 1500 handler calls in one case")
+
+    def func(self, i, cb, st, ms):
+        key = (i, cb, st, ms)
+        if key not in self.funcs:
+            def f():
+                if self.finished:
+                    return
+                t = self.tick()
+                self.called()
+                self.log.append(("call", i, cb, st, ms, t, self.switches[i].state))
+                self.cur["obs"].append("c %d %d %d %d %s" % (i, cb, st, ms, t))
+                self.body(cb, t)
+            f.__name__ = "n_%d_%d_%d_%d" % key
+            self.funcs[key] = f
+        return self.funcs[key]
+
+    def monfunc(self, m):
+        if m not in self.monfuncs:
+            def f(change):
+                if self.finished:
+                    return
+                try:
+                    i = int(change.name[1:])
+                except ValueError:
+                    return
+                t = self.tick()
+                self.called()
+                self.log.append(("mon", m, i, change.state, t))
+                self.cur["obs"].append("m %d %d %d" % (MON_CB + m, i, change.state))
+                self.body(MON_CB + m, t)
+            self.monfuncs[m] = f
+        return self.monfuncs[m]
+
+    def on_wake(self, switch):
+        self.wakes += 1
+        if self.wakes > 3000:
+            self.finished = True
+            raise RuntimeError("runaway: more than 3000 wake-ups in one case")
+        i = int(switch.name[1:])
+        self.group(["wake", i])
+        self.log.append(("wake", i, self.tick()))
+
+    def snapshot(self):
+        self.log.append(("states", [(s.state, s.hw_state) for s in self.switches], self.tick()))
+
+    def run(self):
+        install_wake_logger()
+        self.vm = VMachine(sw_config(self.case["sws"]))
+        try:
+            self.vm.start()
+        except BootError as e:
+            raise InfraError("C03 machine does not boot: %s" % e)
+        _wrapped["run"] = self
+        try:
+            vm = self.vm
+            sc = vm.machine.switch_controller
+            self.switches = [vm.machine.switches["s%d" % i] for i in range(len(self.case["sws"]))]
+            vm.align()
+            self.t0 = vm.now()
+            self.initial = [(1 if s.invert else 0, s.state, s.hw_state) for s in self.switches]
+            self.group(["none"])
+            for op in self.case["ops"]:
+                if self.crash:
+                    break
+                try:
+                    t = self.tick()
+                    if op[0] == "adv":
+                        self.log.append(("adv", t, t + op[1]))
+                        self.group(["none"])
+                        vm.advance(op[1] * TICK)
+                        self.group(["none"])
+                        self.snapshot()
+                        continue
+                    if op[0] == "mon":
+                        self.group(op)
+                        self.log.append(("monitor", op[1], op[2], t))
+                        (sc.add_monitor if op[2] else sc.remove_monitor)(self.monfunc(op[1]))
+                        continue
+                    if op[1] >= len(self.switches):
+                        continue
+                    self.group(op)
+                    if op[0] == "report":
+                        self.cur["obs"] = []
+                        self.do_report(op[1], op[2], op[3], nested=False)
+                    elif op[0] == "add":
+                        self.log.append(("add", op[1], op[2], op[3], op[4], t))
+                        sc.add_switch_handler_obj(self.switches[op[1]], self.func(op[1], op[4], op[2], op[3]), op[2], op[3] * 125)
+                    elif op[0] == "rm":
+                        self.log.append(("rm", op[1], op[2], op[3], op[4], t))
+                        sc.remove_switch_handler_obj(self.switches[op[1]], self.func(op[1], op[4], op[2], op[3]), op[2], op[3] * 125)
+                    else:
+                        raise InfraError("unknown op %r" % (op,))
+                    self.snapshot()
+                except InfraError:
+                    raise
+                except Exception as e:
+                    self.crash = "%s: %s" % (type(e).__name__, e)
+                    self.crash_type = type(e).__name__
+                    self.group(["crash"])
+                    self.cur["obs"].append("crash " + type(e).__name__)
+            self.end = self.tick()
+            self.pending = [self.pending_line(i) for i in range(len(self.switches))]
+        finally:
+            self.finished = True
+            try:
+                if self.vm.machine is not None:
+                    for f in self.monfuncs.values():
+                        self.vm.machine.switch_controller.remove_monitor(f)
+                self.vm.stop()
+            finally:
+                _wrapped["run"] = None
+        return self
+
+    def cb_name(self, callback):
+        for k, f in self.funcs.items():
+            if f is callback:
+                return k[1]
+        return 999
+
+    def pending_line(self, i):
+        sc = self.vm.machine.switch_controller
+        sw = self.switches[i]
+        parts = []
+        for k, es in sc._active_timed_switches.get(sw, {}).items():
+            kt = (k - self.t0) / TICK
+            parts.append("%s:%s" % (int(kt) if kt == int(kt) else kt,
+                                    ",".join("%d/%d/%d" % (self.cb_name(e.callback), e.state, e.ms // 125) for e in es)))
+        d = sc._timed_switch_handler_delay.get(sw)
+        w = "-"
+        if d is not None:
+            wt = (d[1] - self.t0) / TICK
+            w = "%s" % (int(wt) if wt == int(wt) else wt)
+        regs = ["%d/%d/%d" % (self.cb_name(e.callback), st, e.ms // 125) for st in (0, 1) for e in sc.registered_switches[sw][st]
+                if self.cb_name(e.callback) != 999]      # (999 = the Switch device's own handlers)
+        return "T " + " ".join(parts) + " W " + w + " S %d%d" % (sw.state, sw.hw_state) + " R " + ",".join(regs)
+
+
+def net_model_lines(run):
+    out = [("n new %d" % MAXD, "ok")]
+    for inv, st, hw in run.initial:
+        out.append(("n sw %d %d %d" % (inv, st, hw), "ok"))
+    for cb, acts in run.case.get("progs", []):
+        out.append(("n prog %d" % cb + "".join(" " + " ".join(str(x) for x in a) for a in acts), "ok"))
+    now = 0
+    for g in run.groups:
+        h = g["head"]
+        if h[0] == "none" and not g["obs"]:
+            continue
+        if g["t"] != now:
+            out.append(("n to %s" % g["t"], "ok"))
+            now = g["t"]
+        exp = " ".join(g["obs"]) or "ok"
+        if h[0] == "report":
+            out.append(("n report %d %s %d" % (h[1], h[2], h[3]), exp))
+        elif h[0] == "add":
+            out.append(("n add %d %d %d %d" % (h[1], h[2], h[3], h[4]), exp))
+        elif h[0] == "rm":
+            out.append(("n rm %d %d %d %d" % (h[1], h[2], h[3], h[4]), exp))
+        elif h[0] == "wake":
+            out.append(("n wake %d" % h[1], exp))
+        elif h[0] == "mon":
+            out.append(("n mon %d %d" % (MON_CB + h[1], h[2]), exp))
+        elif h[0] == "crash":
+            out.append(("n crash", exp))
+        elif h[0] == "none":
+            out.append(("n stray", exp))
+    for i, p in enumerate(run.pending):
+        out.append(("n pending %d" % i, p))
+    return out
+
+
+def net_oracle(run, counts=None):
+    """C03 read literally, on a timeline in which reports, registrations and removals also come from inside handlers and
+    monitors (log order = the order in which things happened; a nested report is over before its caller goes on).
+    Judged: (1) nothing escapes from the controller; (2) whenever a call into the controller from outside has returned, every
+    switch's logical state is the last reported one (nested reports included) and the raw state its NC image; (3) a
+    duplicate report invokes nothing; (4) every call is of a handler that is registered at that moment (a removed handler
+    never fires); an untimed call belongs to a real change of that switch into that state at this instant, and per instant a
+    handler is not called more often than such changes happened, and not less often than the changes that happened while it
+    was registered (when nobody removed it during that instant); (5) a hold-time call happens with the switch in that state,
+    exactly ms after its last change, once per registration and change; a hold-time registration that was there before the
+    deadline, was not removed before it, with no other change of the switch up to and including the deadline instant, did
+    fire.  NOT judged: monitors (compared with the model only), the order of calls, handlers added during the instant."""
+    def cnt(name, k=1):
+        if counts is not None:
+            counts[name] = counts.get(name, 0) + k
+
+    if run.crash:
+        return "crash-in-reentrant-dispatch-" + getattr(run, "crash_type", "Exception"), {"error": run.crash}
+    n = len(run.switches)
+    inv = [x[0] for x in run.initial]
+    state = [x[1] for x in run.initial]
+    changed_once = [False] * n
+    changes = [[] for _ in range(n)]      # per switch: dict(t, st, idx)
+    regs = []                              # dict(i, st, ms, cb, idx_add, t_add, idx_rm, t_rm, fired{change idx})
+    log = run.log
+    for idx, ev in enumerate(log):
+        k = ev[0]
+        if k == "report":
+            _, i, kind, v, t, depth = ev
+            logical = v if kind == "l" else v ^ inv[i]
+            if depth:
+                cnt("nested_report_depth_%d" % depth)
+                cnt("nested_report_own_switch" if any(e[0] == "call" and e[1] == i for e in log[max(0, idx - 1):idx]) else "nested_report")
+            if logical == state[i]:
+                cnt("dup_report")
+                nxt = log[idx + 1] if idx + 1 < len(log) else None
+                if nxt is None or nxt[0] != "ret":
+                    return "duplicate-invokes-something", {"switch": i, "t": t, "next": str(nxt)}
+            else:
+                state[i] = logical
+                changed_once[i] = True
+                changes[i].append({"t": t, "st": logical, "idx": idx})
+                if depth:
+                    cnt("nested_real_change")
+        elif k == "ret":
+            pass
+        elif k == "states":
+            for i, (s_impl, hw_impl) in enumerate(ev[1]):
+                if s_impl != state[i]:
+                    return "state-not-last-report", {"switch": i, "state": s_impl, "last_reported": state[i], "t": ev[2]}
+                if changed_once[i] and hw_impl != state[i] ^ inv[i]:
+                    return "hw-state-wrong", {"switch": i, "hw_state": hw_impl, "state": state[i], "t": ev[2]}
+        elif k == "add":
+            regs.append({"i": ev[1], "st": ev[2], "ms": ev[3], "cb": ev[4], "t_add": ev[5], "idx_add": idx, "idx_rm": None,
+                         "t_rm": None, "fired": {}})
+            if len(ev) > 6:
+                cnt("nested_add_other_switch" if True else "")
+        elif k == "rm":
+            for r in regs:
+                if (r["i"], r["st"], r["ms"], r["cb"]) == (ev[1], ev[2], ev[3], ev[4]) and r["idx_rm"] is None:
+                    r["idx_rm"], r["t_rm"] = idx, ev[5]
+        elif k == "call":
+            _, i, cb, st, ms, t, sw_state = ev
+            live = [r for r in regs if (r["i"], r["cb"], r["st"], r["ms"]) == (i, cb, st, ms) and r["idx_rm"] is None]
+            kind = "timed" if ms else "untimed"
+            if not live:
+                was = [r for r in regs if (r["i"], r["cb"], r["st"], r["ms"]) == (i, cb, st, ms)]
+                if was:
+                    return kind + "-removed-handler-fires", {"switch": i, "call": [cb, st, ms, t],
+                                                             "removed_at": max(r["t_rm"] for r in was)}
+                return kind + "-extra-call", {"switch": i, "call": [cb, st, ms, t], "why": "never registered"}
+            if ms == 0:
+                if not any(c["t"] == t and c["st"] == st for c in changes[i]):
+                    return "untimed-extra-call", {"switch": i, "call": [cb, st, ms, t], "why": "no change into this state now"}
+                if sw_state != st:
+                    cnt("untimed_call_after_switch_left_state_again")
+            else:
+                c = changes[i][-1] if changes[i] else None
+                if c is None or state[i] != st or c["t"] + ms != t:
+                    return "timed-fires-at-wrong-time", {"switch": i, "call": [cb, st, ms, t], "state": state[i],
+                                                         "last_change": c["t"] if c else None}
+                ok = [r for r in live if (r["idx_add"] < c["idx"] or r["t_add"] < t) and r["fired"].get(c["idx"], 0) == 0]
+                if not ok:
+                    late = all(r["idx_add"] > c["idx"] and r["t_add"] >= t for r in live)
+                    return ("timed-late-add-fires" if late else "timed-extra-call"), \
+                        {"switch": i, "call": [cb, st, ms, t], "why": "registered at/after the deadline" if late
+                         else "more than once for one change"}
+                ok[0]["fired"][c["idx"]] = 1
+    # untimed handlers: calls per instant against the real changes of that instant
+    keys = {}
+    for r in regs:
+        if r["ms"] == 0:
+            keys.setdefault((r["i"], r["cb"], r["st"]), []).append(r)
+    for (i, cb, st), rs in keys.items():
+        for t in sorted({c["t"] for c in changes[i] if c["st"] == st}):
+            cs = [c for c in changes[i] if c["t"] == t and c["st"] == st]
+            calls = sum(1 for e in log if e[0] == "call" and e[1:6] == (i, cb, st, 0, t))
+            hi = sum(len(cs) for r in rs if r["idx_rm"] is None or r["idx_rm"] > cs[0]["idx"])
+            touched = any(r["t_rm"] == t or r["t_add"] == t for r in rs)
+            lo = 0 if touched else sum(len(cs) for r in rs if r["idx_add"] < cs[0]["idx"] and r["idx_rm"] is None or
+                                       (r["idx_add"] < cs[0]["idx"] and r["t_rm"] is not None and r["t_rm"] > t))
+            if calls > hi:
+                return "untimed-extra-call", {"switch": i, "handler": [cb, st, 0], "t": t, "calls": calls, "changes": len(cs)}
+            if calls < lo:
+                return "untimed-missing-call", {"switch": i, "handler": [cb, st, 0], "t": t, "calls": calls, "changes": len(cs)}
+            if len(cs) > 1:
+                cnt("several_changes_into_state_in_one_instant")
+    # hold-time handlers that had to fire
+    for r in regs:
+        if r["ms"] == 0:
+            continue
+        i = r["i"]
+        for ci, c in enumerate(changes[i]):
+            if c["st"] != r["st"]:
+                continue
+            dl = c["t"] + r["ms"]
+            if dl > run.end:
+                continue
+            nxt = changes[i][ci + 1] if ci + 1 < len(changes[i]) else None
+            if nxt is not None and nxt["t"] <= dl:
+                if nxt["t"] == dl:
+                    cnt("change_at_deadline_instant_not_judged")
+                continue
+            if r["idx_add"] > c["idx"] and not r["t_add"] < dl:
+                continue
+            if r["idx_rm"] is not None and (r["idx_rm"] < c["idx"] or r["t_rm"] <= dl):
+                continue
+            if r["fired"].get(c["idx"], 0) == 0:
+                return "timed-missing-call", {"switch": i, "missing": [r["cb"], r["st"], r["ms"], dl]}
+    return None
+
+
+def check_net_case(ctx, case, model, shrink=True, sample=True):
+    run = NetRun(case).run()
+    if getattr(run, "too_big", False):
+        # the callback programs of this case multiply (a handler that registers handlers that report ...): the walks are
+        # legitimate but grow exponentially; the case is counted and dropped (a wake-up that never ends is NOT dropped)
+        ctx.count("net_case_dropped_too_many_calls")
+        return None
+    nested = sum(1 for e in run.log if e[0] == "report" and e[5])
+    ctx.evaluated(case, nested > 0 and any(e[0] == "call" for e in run.log), sample=sample)
+    ctx.count("net_cases")
+    for e in run.log:
+        if e[0] == "call":
+            ctx.count("net_call_timed" if e[4] else "net_call_untimed")
+        elif e[0] == "mon":
+            ctx.count("net_monitor_call")
+        elif e[0] == "wake":
+            ctx.count("net_wake")
+    ctx.count("net_max_depth_%d" % run.max_depth_seen)
+    counts = {}
+    bad = net_oracle(run, counts)
+    for k, v in counts.items():
+        ctx.count("net_" + k, v)
+    if bad:
+        sig, detail = bad
+        small = case
+        if shrink and first_of(ctx, sig):
+            def fails(ops):
+                b = net_oracle(NetRun(dict(case, ops=ops)).run())
+                return b is not None and b[0] == sig
+            small = dict(case, ops=ddmin(case["ops"], fails, max_tests=150))
+            b2 = net_oracle(NetRun(small).run())
+            if b2 is not None and b2[0] == sig:
+                detail = b2[1]
+            else:
+                small = case
+        ctx.fail(sig, small, detail)
+    if model is not None:
+        lines = net_model_lines(run)
+        got = [model.ask(l) for l, _ in lines]
+        ctx.compare(dict(case, what="switch controller trace (re-entrant dispatch)", sent=[l for l, _ in lines]),
+                    [e for _, e in lines], got)
+    return bad
+
+
 # ---------------------------------------------------------------------------------------------------- corpus
 
 CORPUS = [
@@ -1254,6 +1752,27 @@ CORPUS = [
      "ops": [["add", 0, 1, 0, 0], ["add", 0, 1, 2, 1], ["mute", 0, 1], ["report", 0, "l", 1], ["adv", 3], ["unmute", 0, 1],
              ["report", 0, "l", 0], ["wait", [0, 1], 1, 1, 1], ["wait", [1], 2, 1, 0], ["resync", [1, 1]], ["poll", ["=", "="]],
              ["adv", 1], ["resync", [1, 0]], ["cancel", 1], ["adv", 2], ["wait", [0], 1, 0, 0], ["adv", 1]]},
+]
+
+
+NET_CORPUS = [
+    # a hold-time handler reports a change of its own switch while its deadline bucket is being processed (KeyError out of
+    # _process_active_timed_switches before the fix); handler 1 shares the bucket
+    {"kind": "net", "sws": [{"nc": False}, {"nc": False}], "progs": [[2, [["p", 1, "l", 1]]]],
+     "ops": [["add", 1, 0, 3, 2], ["add", 1, 0, 3, 1], ["report", 1, "l", 1], ["report", 1, "l", 0], ["adv", 3], ["adv", 4]]},
+    # an untimed handler reports the next change of its own switch during the walk: the hold-time handler behind it must not be
+    # armed for the state the switch has left (fired at change+ms although the switch did not stay)
+    {"kind": "net", "sws": [{"nc": True}, {"nc": False}], "progs": [[0, [["p", 1, "r", 0]]]],
+     "ops": [["add", 1, 1, 0, 0], ["add", 1, 1, 2, 1], ["report", 1, "l", 1], ["adv", 2]]},
+    # ... and when the callback brings the switch back into the state within the same instant, the hold time is armed once
+    {"kind": "net", "sws": [{"nc": False}, {"nc": False}], "progs": [[0, [["p", 0, "l", 0], ["p", 0, "l", 1]]]],
+     "ops": [["add", 0, 1, 0, 0], ["add", 0, 1, 2, 1], ["report", 0, "l", 1], ["adv", 3]]},
+    # handlers acting on another switch: s0's handler registers / removes handlers of s1 and reports s1; a monitor that removes a
+    # handler and reports a third switch
+    {"kind": "net", "sws": [{"nc": False}, {"nc": True}, {"nc": False}],
+     "progs": [[0, [["a", 1, 1, 2, 1], ["p", 1, "l", 1], ["r", 1, 1, 0, 2]]], [700, [["r", 2, 1, 0, 3], ["p", 2, "l", 1]]]],
+     "ops": [["mon", 0, 1], ["add", 0, 1, 0, 0], ["add", 1, 1, 0, 2], ["add", 2, 1, 0, 3], ["add", 2, 1, 1, 1], ["report", 0, "r", 1],
+             ["adv", 1], ["report", 0, "l", 0], ["adv", 2], ["mon", 0, 0], ["report", 1, "r", 1], ["adv", 3]]},
 ]
 
 
@@ -1316,8 +1835,14 @@ def run(ctx):
     try:
         for case in CORPUS:
             check_case(ctx, case, model)
+        for case in NET_CORPUS:
+            check_net_case(ctx, case, model)
         for i in range(ctx.n(900, 10000)):
             check_case(ctx, gen_case(ctx.rng("ctl", i)), model)
+            if i % 200 == 199:
+                mpfleak.release()
+        for i in range(ctx.n(500, 3000)):
+            check_net_case(ctx, gen_net_case(ctx.rng("net", i)), model)
             if i % 200 == 199:
                 mpfleak.release()
         for i in range(ctx.n(300, 4000)):
@@ -1337,3 +1862,5 @@ def replay(ctx, rep):
         check_event_case(ctx, {k: case[k] for k in ("kind", "window", "ops")}, shrink=False)
     elif case.get("kind") == "ctl":
         check_case(ctx, {k: case[k] for k in ("kind", "sws", "progs", "ops") if k in case}, None, shrink=False)
+    elif case.get("kind") == "net":
+        check_net_case(ctx, {k: case[k] for k in ("kind", "sws", "progs", "ops") if k in case}, None, shrink=False)
